@@ -250,7 +250,8 @@ fn serve_conn(s: std::net::TcpStream, fault: Fault, cid: usize, log: ServerLog) 
                     break;
                 }
             } else {
-                content.push_str(&line);
+                // RFC 5321 4.5.2: a leading dot of a line was added by the client
+                content.push_str(line.strip_prefix('.').unwrap_or(&line));
             }
             continue;
         }
@@ -515,7 +516,7 @@ fn run_sync(ctl: &Arc<Controller>, plan: &Plan, port: u16) -> Option<(String, St
                 .spawn(move || {
                     for k in 0..sends {
                         let env = Envelope::new(Some(format!("s{i}@example.org").parse().unwrap()), vec!["to@example.org".parse().unwrap()]).unwrap();
-                        let r = t.send_raw(&env, format!("s{i}.{k}").as_bytes());
+                        let r = t.send_raw(&env, format!(".s{i}.{k}").as_bytes());
                         results.lock().unwrap().entry(n2.clone()).or_default().push(describe(&r));
                     }
                     drop(t);
